@@ -725,11 +725,48 @@ func addManyParams(r *Rand, c *Case) {
 	cc.Steps = append(steps, cc.Steps[1:]...)
 }
 
+// genC13Overlap: connection A's COPY stream has ended (CopyDone) while A's
+// handler is still at work; in that window connection B starts a COPY of its
+// own, which its client aborts; then A's handler finishes. Each connection is
+// judged against its own solo run.
+func genC13Overlap(r *Rand) *Case {
+	c := &Case{Variant: "copy-beside-copy", Server: ServerCfg{Limit: 4096}, Programs: map[string]*Program{}}
+	col := []ColSpec{{Name: "a", OID: pgwire.OIDText}}
+	c.Programs["cpa"] = &Program{Stmts: []*StmtProg{{Cols: col, Ops: []Op{{K: "copyin", Fmt: int16(r.Intn(2))}, {K: "copyall"}, {K: "yield"}, {K: "yield"}, {K: "complete", Tag: "COPY A"}}}}}
+	c.Programs["cpb"] = &Program{Stmts: []*StmtProg{{Cols: col, Ops: []Op{{K: "copyin", Fmt: int16(r.Intn(2))}, {K: "copyall"}, {K: "retlast"}}}}}
+	c.Programs["q"] = &Program{Stmts: []*StmtProg{{Cols: col, Ops: []Op{{K: "row", Row: []Val{{G: "string", S: "ok"}}}, {K: "complete", Tag: "SELECT 1"}}}}}
+	a := []pgwire.FMsg{{K: "Q", S1: "cpa"}}
+	for n := r.Range(0, 3); n > 0; n-- {
+		a = append(a, pgwire.FMsg{K: "d", Data: []byte(r.Ident(r.Range(1, 40)))})
+	}
+	a = append(a, pgwire.FMsg{K: "c"}, pgwire.FMsg{K: "Q", S1: "q"})
+	b := []pgwire.FMsg{{K: "Q", S1: "cpb"}}
+	if r.Bool() {
+		b = append(b, pgwire.FMsg{K: "d", Data: []byte(r.Ident(r.Range(1, 40)))})
+	}
+	switch r.Intn(3) {
+	case 0:
+		b = append(b, pgwire.FMsg{K: "f", S1: "client gave up " + r.Ident(4)})
+	case 1:
+		b = append(b, pgwire.FMsg{K: "typed", T: 'd', Pad: 5000, PadPat: []byte("oversized ")}, pgwire.FMsg{K: "c"})
+	case 2:
+		b = append(b, pgwire.FMsg{K: "Q", S1: "q"})
+	}
+	b = append(b, pgwire.FMsg{K: "Q", S1: "q"})
+	c.Conns = []ConnCase{
+		{Steps: []Step{{Msgs: []pgwire.FMsg{startupMsg("a", "d")}}, {Msgs: a}}},
+		{Steps: []Step{{Msgs: []pgwire.FMsg{startupMsg("b", "d")}}, {Msgs: b}}},
+	}
+	c.Sched = &SchedCase{Strategy: r.Pick("uniform", "pct"), Depth: 1, MaxSteps: 300000,
+		Holds: []Hold{{Task: 2, Point: "conn.start", Until: 1, UntilPoint: "op.yield"}, {Task: 1, Point: "op.yield", Until: 2, UntilPoint: "close"}}}
+	return c
+}
+
 func init() {
 	// ------------------------------------------------------------------ C05
 	register(&Prop{
 		ID: "C05", Level: "exploration", QuickS: 25, ThoroughS: 420,
-		Rule:       "seeded simple-query histories (1-6 Query messages, pipelined / one per quiescence point / grouped, random segmentation) whose query texts map to generated handler programs (parser error, 0/1/many statements, 0-4 typed columns, good / wrong-arity / unencodable rows, Written() reads, Complete, calls after completion, error return at any position); a fifth of the histories interleave extended-protocol messages (synced or not, failing or not) with the simple queries; a share of cases cancels the session context (derived by a session middleware, as a session time limit would) while one statement of a multi-statement query runs: the cycle must still be all results in order or results of a prefix plus exactly one ErrorResponse, never a silently shortened result, and the result writer stays a state machine under cancellation (0-3 columns; the context ends before, after or while a value of a row is being encoded: a Row call that returned nil put its DataRow on the wire, one that failed did not, Written() agrees); variants: a statement cancels the middleware-derived session context (optionally letting simulated time pass before it goes on writing) - nothing of a query may arrive after its ReadyForQuery; E2: Server.Close pinned inside a running query of 1-3 statements - the admitted query is answered in full with one ReadyForQuery; non-trivial = at least one result-writer operation was executed and judged; distinct = distinct case content hashes",
+		Rule:       "seeded simple-query histories (1-6 Query messages, pipelined / one per quiescence point / grouped, random segmentation) whose query texts map to generated handler programs (parser error, 0/1/many statements, 0-4 typed columns, good / wrong-arity / unencodable rows, Written() reads, Complete, calls after completion, error return at any position); a quarter of the histories repeat query texts (half of them with a parser that hands out the very same statements value again), errors include slice-typed (unhashable) values and a per-session error object that is filled in anew for every failure; a fifth of the histories interleave extended-protocol messages (synced or not, failing or not) with the simple queries; a share of cases cancels the session context (derived by a session middleware, as a session time limit would) while one statement of a multi-statement query runs: the cycle must still be all results in order or results of a prefix plus exactly one ErrorResponse, never a silently shortened result, and the result writer stays a state machine under cancellation (0-3 columns; the context ends before, after or while a value of a row is being encoded: a Row call that returned nil put its DataRow on the wire, one that failed did not, Written() agrees); variants: a statement cancels the middleware-derived session context (optionally letting simulated time pass before it goes on writing) - nothing of a query may arrive after its ReadyForQuery; E2: Server.Close pinned inside a running query of 1-3 statements - the admitted query is answered in full with one ReadyForQuery; non-trivial = at least one result-writer operation was executed and judged; distinct = distinct case content hashes",
 		Components: append(append([]string{}, e1Components...), "E2 share (the variants that pin Server.Close or other connections against a running session): seeded scheduler harness/kernel.go decides every interleaving of connection goroutines and Close callers at transport operations, callbacks, hand-placed hooks and spliced synchronisation points"), Assumptions: commonAssumptions,
 		Gen: func(r *Rand, tier string) *Case {
 			if r.Chance(1, 25) {
@@ -744,6 +781,24 @@ func init() {
 			ext := r.Chance(1, 5)
 			genHistory(r, c, histOpts{decorated: r.Chance(1, 4), manyRows: true, simple: true, errs: true, abuse: true, multi: true, typedNull: false, rich: true, maxUnits: units(tier, 6), terminate: true,
 				extended: ext, params: ext, unknownNames: ext, closes: ext})
+			if r.Chance(1, 4) {
+				// the same query texts again (an application's parser may keep what it
+				// has parsed and hand the same statements out once more)
+				c.Server.MemoParser = r.Bool()
+				cc := &c.Conns[0]
+				for n := r.Range(1, 3); n > 0; n-- {
+					si := r.Intn(len(cc.Steps))
+					st := &cc.Steps[si]
+					for mi := range st.Msgs {
+						if st.Msgs[mi].K == "Q" && isPlain(&st.Msgs[mi]) {
+							ms := append([]pgwire.FMsg{}, st.Msgs[:mi+1]...)
+							ms = append(ms, st.Msgs[mi])
+							st.Msgs = append(ms, st.Msgs[mi+1:]...)
+							break
+						}
+					}
+				}
+			}
 			return c
 		},
 		Check: func(x *Exec, c *Case) ([]Violation, bool) {
@@ -766,7 +821,7 @@ func init() {
 	// ------------------------------------------------------------------ C06
 	register(&Prop{
 		ID: "C06", Level: "exploration", QuickS: 25, ThoroughS: 420,
-		Rule:       "seeded histories of Parse/Bind/Describe/Execute/Close/Flush/Sync over <=3 statement and <=3 portal names (incl. the empty name and names never defined) interleaved with simple queries, oversized and unknown messages, parsers and statement functions scripted to fail; delivered pipelined, one message per quiescence point, or grouped; judged message by message against the reference model with discard-until-Sync, including that each designated reply is on the wire when the server next waits for input; units that repeat an earlier Parse verbatim and that bind one statement several times with result-format lists differing in spelling or one position; long results (a row repeated 17-3000 times, up to 300 columns); variants: the session context is cancelled in the middle of an Execute (nothing of it may arrive after the message that ended it), a statement function panics inside Execute (a failed Execute: one ErrorResponse, discard until Sync); non-trivial = an ErrorResponse occurred and at least one later message of the same batch was judged; distinct = distinct case content hashes",
+		Rule:       "seeded histories of Parse/Bind/Describe/Execute/Close/Flush/Sync over <=3 statement and <=3 portal names (incl. the empty name and names never defined) interleaved with simple queries, oversized and unknown messages, parsers and statement functions scripted to fail; delivered pipelined, one message per quiescence point, or grouped; judged message by message against the reference model with discard-until-Sync, including that each designated reply is on the wire when the server next waits for input; units that repeat an earlier Parse verbatim and that bind one statement several times with result-format lists differing in spelling or one position; long results (a row repeated 17-3000 times, up to 300 columns); an eighth of the cases run behind an earlier session on the same server that used the same names; variants: the session context is cancelled in the middle of an Execute (nothing of it may arrive after the message that ended it), a statement function panics inside Execute (a failed Execute: one ErrorResponse, discard until Sync); non-trivial = an ErrorResponse occurred and at least one later message of the same batch was judged; distinct = distinct case content hashes",
 		Components: e1Components, Assumptions: commonAssumptions,
 		Gen: func(r *Rand, tier string) *Case {
 			if r.Chance(1, 40) {
@@ -777,6 +832,12 @@ func init() {
 			}
 			c := &Case{Server: ServerCfg{Limit: smallLimit(r)}}
 			genHistory(r, c, histOpts{copy: r.Chance(1, 5), decorated: r.Chance(1, 4), manyRows: true, simple: true, extended: true, errs: true, abuse: r.Chance(1, 3), unknown: true, oversized: true, unknownNames: true, closes: true, stray: true, params: true, maxUnits: units(tier, 8), terminate: true})
+			if r.Chance(1, 8) {
+				// the server has served (and seen off) an earlier session that used
+				// the same statement and portal names
+				genHistory(r, c, histOpts{prefix: "b", simple: true, extended: true, errs: true, unknownNames: true, closes: true, params: true, maxUnits: units(tier, 5)})
+				c.Conns[0], c.Conns[1] = c.Conns[1], c.Conns[0]
+			}
 			return c
 		},
 		Check: func(x *Exec, c *Case) ([]Violation, bool) {
@@ -798,14 +859,20 @@ func init() {
 	// ------------------------------------------------------------------ C13
 	register(&Prop{
 		ID: "C13", Level: "exploration", QuickS: 25, ThoroughS: 420,
-		Rule:       "seeded COPY-in histories: a statement starts COPY (text or binary, 1-4 columns) and follows a scripted read plan (read k chunks and complete / fail after k chunks / read to the end and report the outcome); the client follows CopyInResponse with sequences over CopyData(0..300 bytes)/CopyDone/CopyFail/Flush/Sync/foreign messages, plus stray COPY messages outside COPY mode, in simple and extended protocol; foreign messages inside the stream include Terminate, Describe, Close and Bind; non-trivial = a CopyInResponse was sent and the handler observed at least one COPY read outcome; distinct = distinct case content hashes",
+		Rule:       "seeded COPY-in histories: a statement starts COPY (text or binary, 1-4 columns) and follows a scripted read plan (read k chunks and complete / fail after k chunks / read to the end and report the outcome); the client follows CopyInResponse with sequences over CopyData(0..300 bytes)/CopyDone/CopyFail/Flush/Sync/foreign messages, plus stray COPY messages outside COPY mode, in simple and extended protocol; foreign messages inside the stream include Terminate, Describe, Close and Bind; E2 variant copy-beside-copy: one connection's COPY has ended with CopyDone while its handler is still busy, meanwhile another connection starts a COPY that its client aborts (CopyFail, oversized or foreign message) - each connection must fare exactly as when served alone; non-trivial = a CopyInResponse was sent and the handler observed at least one COPY read outcome; distinct = distinct case content hashes",
 		Components: e1Components, Assumptions: commonAssumptions,
 		Gen: func(r *Rand, tier string) *Case {
+			if r.Chance(1, 30) {
+				return genC13Overlap(r)
+			}
 			c := &Case{Server: ServerCfg{Limit: smallLimit(r)}}
 			genHistory(r, c, histOpts{decorated: r.Chance(1, 4), copyTwice: true, copyForeign: true, simple: true, copy: true, extended: r.Bool(), errs: true, stray: true, maxUnits: units(tier, 5)})
 			return c
 		},
 		Check: func(x *Exec, c *Case) ([]Violation, bool) {
+			if c.Variant == "copy-beside-copy" {
+				return checkConcurrent("C13", x, c, 2)
+			}
 			viol, r, _ := modelCheck("C13", x, c)
 			nt := false
 			for i, cs := range r.Conns {
